@@ -168,6 +168,23 @@ impl<'tcx> Cx<'tcx> {
                 let ed = sp.ctxt().outer_expn_data();
                 v.push(("macro", J::S(format!("{:?}", ed.kind))));
             }
+            // full macro backtrace, innermost first: "defining-crate::name"
+            let mut bt = Vec::new();
+            for ed in sp.macro_backtrace() {
+                if let rustc_span::ExpnKind::Macro(_, name) = ed.kind {
+                    let krate = match ed.macro_def_id {
+                        Some(d) => self.tcx.crate_name(d.krate).to_string(),
+                        None => "?".to_string(),
+                    };
+                    bt.push(J::S(format!("{}::{}", krate, name)));
+                }
+                if bt.len() > 12 {
+                    break;
+                }
+            }
+            if !bt.is_empty() {
+                v.push(("mbt", J::A(bt)));
+            }
         }
         J::O(v)
     }
